@@ -675,6 +675,9 @@ def model_next(m, it, sp, item_ty=None):
             return None
         idx = st["count"]
         st["count"] += 1
+        known = getattr(m, "iter_item_ty", {}).get(st["tag"])
+        if known is not None and (item_ty is None or item_ty.get("k") in ("param", "proj", "alias", "opaque", "other")):
+            item_ty = known
         if item_ty is None:
             return VOpaque("?", "%s#%d" % (st["tag"], idx))
         v = m.sym_value(item_ty, "%s#%d" % (st["tag"], idx))
@@ -2281,3 +2284,20 @@ def iter_rfind(m, ref, args, t, sp):
 BY_TRAIT[("core::iter::traits::iterator::Iterator", "rposition")] = iter_rposition
 BY_TRAIT[("core::iter::traits::double_ended::DoubleEndedIterator", "rfind")] = iter_rfind
 BY_TRAIT[("core::iter::traits::double_ended::DoubleEndedIterator", "rposition")] = iter_rposition
+
+
+def borrow_borrow(m, ref, args, t, sp):
+    """Borrow::borrow / AsRef::as_ref between T, &T and &mut T of plain data: the reference itself, or
+    the reference it holds"""
+    r = args[0]
+    if isinstance(r, VRef):
+        v = m.read_loc(r.cell, r.path) if r.lo is None else r
+        if isinstance(v, VRef):
+            return v
+        return r
+    return m.unknown_call(ref["fn"], args, t, sp, ref)
+
+
+BY_TRAIT[("core::borrow::Borrow", "borrow")] = borrow_borrow
+BY_TRAIT[("core::borrow::BorrowMut", "borrow_mut")] = borrow_borrow
+BY_TRAIT[("core::convert::AsRef", "as_ref")] = borrow_borrow
